@@ -253,9 +253,13 @@ def random_program(rng, maxops=10, maxlen=40, start=None):
     ops = []
     reshaped = False
     normalized_x = False
+    same_len_grid = False
     for _ in range(rng.randint(1, maxops)):
         n = len(sim.x)
         r = rng.random()
+        if same_len_grid:       # the caller's grid (as long as the original) is now the working x: restore next, half of the time
+            same_len_grid = False                                   # (seed C09j: restore refills same-shaped buffers in place)
+            r = 0.39 if rng.random() < 0.5 and not normalized_x else r
         if r < 0.34:
             op = random_domain_op(rng, sim, maxlen)
             if op["k"] == "truncate_value":           # bounds that cannot coincide with a sample (no floating-point ties)
@@ -295,9 +299,15 @@ def random_program(rng, maxops=10, maxlen=40, start=None):
             if n < 4:
                 continue
             m = rng.randint(2, 9)
+            want = len(orig_x) if rng.random() < 0.35 else 0     # a grid of exactly as many points as the original series
+            if want:
+                m = want
             inner = sorted(set(sim.x[0] + (sim.x[-1] - sim.x[0]) * Fraction(rng.randint(1, 63), 64) for _ in range(m - 2)))
+            while want and len(inner) < want - 2:
+                inner = sorted(set(inner) | {sim.x[0] + (sim.x[-1] - sim.x[0]) * Fraction(rng.randint(1, 255), 256)})
             q = [sim.x[0]] + inner + [sim.x[-1]]
-            op = {"k": "interpolate_grid", "q": [R(v) for v in q], "method": rng.choice(METHODS), "qcontainer": rng.choice(["array", "list"]), "snap_ends": True}
+            op = {"k": "interpolate_grid", "q": [R(v) for v in q], "method": rng.choice(METHODS), "qcontainer": rng.choice(["array", "list"]) if not want else "array", "snap_ends": True}
+            same_len_grid = bool(want)
             reshaped = True
         elif r < 0.76:
             op = {"k": "trend", "c": [R(Fraction(rng.randint(-4, 4), 2)) for _ in range(3)], "normalized": rng.random() < 0.5}
